@@ -46,7 +46,10 @@ MANIFEST = {
              "in-memory connections from its Dial), the real peerHandler, outboundPeerConnected, btcd peer handshake -> "
              "ServerPeer.OnVersion / OnVerAck -> handleAddPeerMsg, BanPeer, IsBanned, Peers(); judged: "
              "NoServicePeerBanned, MisbehavingPeerBanned, NoConnectionToBanned (over ChainService.Peers()), "
-             "BannedConnectRefused.",
+             "BannedConnectRefused. A second configuration takes a BanPeer call step by step (ban write held by a "
+             "proxy ban store, the environment dials / handshakes / drops in the window, then the write commits and "
+             "the deferred disconnect runs); after a divergence the remaining inputs are still applied and the "
+             "system is driven to quiescence before NoConnectionToBanned is judged.",
         note="Bounded: store <=5 address classes, 3 spelling groups, 2 reasons, clock 0..3; enforcement <=3 connection "
              "slots, 2 IPs x 2 ports, 6 actions per history (the replayed graph has cycles, paths are longer). "
              "Assumes: expiries are whole Unix seconds, queries in the wall-clock second of a nominal expiry are never "
